@@ -31,7 +31,6 @@ import Driver.OpFees
 import Driver.AccessTx
 import Driver.AccessSets
 import Driver.InspectorWrap
-import Driver.Interp
 /-! Line-protocol driver: one request per line on stdin, one reply per line on stdout.
 Stateless components are dispatched on the first token. A stateful component `X` adds a field
 `x : Driver.X.St := Driver.X.St.init` to `DState`, resets it on `begin x …` and threads it through
@@ -57,7 +56,6 @@ structure DState where
   frame : Driver.Frame.St := Driver.Frame.St.init
   ether : Driver.Ether.St := Driver.Ether.St.init
   acc : Driver.AccessSets.St := Driver.AccessSets.St.init
-  interp : Driver.Interp.St := Driver.Interp.St.init
   -- stateful component states go here
 
 def step (st : DState) (line : String) : DState × String :=
@@ -117,10 +115,7 @@ def step (st : DState) (line : String) : DState × String :=
   | "begin" :: "acc" :: r => let (s, out) := Driver.AccessSets.begin r; ({ st with acc := s }, out)
   | "a" :: r => let (s, out) := Driver.AccessSets.handle st.acc r; ({ st with acc := s }, out)
   | "inspwrap" :: r => (st, InspectorWrap.handle r)
-  | "begin" :: "interp" :: r => let (s, o) := Driver.Interp.begin r; ({ st with interp := s }, o)
   | "begin" :: "eof" :: r => let (s, o) := Driver.Interp.beginEof r; ({ st with interp := s }, o)
-  | "i" :: r => let (s, o) := Driver.Interp.handle st.interp r; ({ st with interp := s }, o)
-  | "interp" :: r => (st, Driver.Interp.handleStateless r)
   | _ => (st, "bad-op")
 
 partial def loop (hin hout : IO.FS.Stream) (st : DState) : IO Unit := do
